@@ -135,6 +135,10 @@ class SATEncoder:
         reached = {k * v: lit for v, lit in var.bool_vars.items()}
         for var, k in terms[1:]:
             sums = {s + k * v for s in reached for v in var.bool_vars}
+            if not sums:
+                # a variable with an empty domain (lb > ub): no assignment exists, whatever the relation
+                self._clauses.append([])
+                return
             partial = self._create_int_var(min(sums), max(sums))
             for s, s_lit in reached.items():
                 for v, v_lit in var.bool_vars.items():
